@@ -146,6 +146,9 @@ func (g *cgen) generate() *ConcProgram {
 	if g.chance("returninloopshape", 8) {
 		return g.returnInGoroutineLoopFrontier()
 	}
+	if g.chance("returninifshape", 8) {
+		return g.returnInGoroutineIfFrontier()
+	}
 	independent := g.chance("independent", 55)
 	nthreads := 1 + g.pick("nthreads", 3)
 	useMachine := false
@@ -480,6 +483,54 @@ func (g *cgen) returnInGoroutineLoopFrontier() *ConcProgram {
 		w("\t\twg.Done()\n\t}()\n")
 	}
 	w("\twg.Wait()\n\tmu.Lock()\n\tr0 := found\n\tr1 := visits\n\tmu.Unlock()\n\treturn r0, r1\n}\n")
+	var feats []string
+	for f := range g.feats {
+		feats = append(feats, f)
+	}
+	return &ConcProgram{Src: "package main\n\nimport (\n\t\"sync\"\n)\n\n" + b.String(), Independent: true, Features: feats, Threads: 2, MayReject: true}
+}
+
+// returnInGoroutineIfFrontier: an early `return` from a goroutine's closure at the end of an if
+// that is nested 1–3 deep (no loop), holding the mutex; the code after the ifs unlocks and calls
+// Done as well. goose rejects every return in a goroutine today; a change that starts accepting
+// them must end the thread there, at every nesting depth (seeded change C03-10). Rejection is fine
+// (MayReject); the result does not depend on the schedule.
+func (g *cgen) returnInGoroutineIfFrontier() *ConcProgram {
+	g.feat("return-inside-goroutine-if")
+	var b strings.Builder
+	w := func(format string, a ...any) { fmt.Fprintf(&b, format, a...) }
+	depth := 1 + g.pick("rifdepth", 3)
+	g.feat(fmt.Sprintf("return-at-if-depth-%d", depth))
+	conds := make([]bool, depth)
+	for i := range conds {
+		conds[i] = g.chance("rifcond", 70)
+	}
+	w("func run(a0 bool, a1 bool, a2 bool) (uint64, uint64) {\n")
+	w("\tmu := new(sync.Mutex)\n\twg := new(sync.WaitGroup)\n\tv := new(uint64)\n\tvar steps uint64\n\twg.Add(1)\n")
+	w("\tgo func() {\n\t\tmu.Lock()\n\t\tsteps = steps + 1\n")
+	ind := "\t\t"
+	for d := 0; d < depth; d++ {
+		w("%sif a%d {\n", ind, d)
+		ind += "\t"
+		if d+1 < depth && g.chance("rifwork", 50) {
+			w("%ssteps = steps + 10\n", ind)
+		}
+	}
+	w("%s*v = 100\n%smu.Unlock()\n%swg.Done()\n%sreturn\n", ind, ind, ind, ind)
+	for d := depth - 1; d >= 0; d-- {
+		ind = ind[:len(ind)-1]
+		w("%s}\n", ind)
+		if d > 0 && g.chance("rifafter", 40) {
+			w("%ssteps = steps + 100\n", ind)
+		}
+	}
+	w("\t\t*v = *v + 1\n\t\tmu.Unlock()\n\t\twg.Done()\n\t}()\n")
+	w("\twg.Wait()\n\tmu.Lock()\n\tr0 := *v\n\tr1 := steps\n\tmu.Unlock()\n\treturn r0, r1\n}\n\n")
+	args := []string{"false", "false", "false"}
+	for i, c := range conds {
+		args[i] = fmt.Sprint(c)
+	}
+	w("func entry0() (uint64, uint64) {\n\treturn run(%s)\n}\n", strings.Join(args, ", "))
 	var feats []string
 	for f := range g.feats {
 		feats = append(feats, f)
